@@ -133,7 +133,14 @@ fn scenario(cfg: &RunCfg) -> Outcome {
     let mut disk_fault_idx = 0usize;
     for c in 0..nclients {
         let big = gen::ratio(1, 6);
-        let l = if big { 60_000 + gen::below(90_000) as usize } else { s + 1 + gen::below(3000) as usize };
+        // (one upload in thirty spans many copy blocks: 0.3 - 0.7 MB)
+        let l = if gen::ratio(1, 30) {
+            300_000 + gen::below(400_000) as usize
+        } else if big {
+            60_000 + gen::below(90_000) as usize
+        } else {
+            s + 1 + gen::below(3000) as usize
+        };
         let declared = gen::ratio(1, 2);
         let kind = if declared { ReqKind::Known(l) } else { ReqKind::Unknown(l) };
         let m: u64 = match gen::below(5) {
@@ -245,6 +252,16 @@ fn scenario(cfg: &RunCfg) -> Outcome {
     // temp-file removal errors surface as panics in destructors: they are task panics of the SUT
     if let Some(p) = eng.sut_panics().first() {
         return Outcome::fail("C10.no_task_panic", format!("{p}; workload: {descr:?}"));
+    }
+    // every upload ends one way or the other: a client that waits for the answer gets one,
+    // or sees the connection closed (a request that just hangs keeps its file for ever)
+    if !ex.cancelled {
+        if let Some((i, c)) = eng.clients.iter().enumerate().find(|(_, c)| !c.done()) {
+            return Outcome::fail(
+                "C10.upload_ends",
+                format!("client {i} still waits at script step {} ({:?}) although nothing is runnable: its upload was neither answered nor abandoned; workload: {descr:?}", c.pc, c.ops.get(c.pc).map(|o| format!("{o:?}").chars().take(24).collect::<String>())),
+            );
+        }
     }
     let open = with(|w| w.net.conns.iter().filter(|c| c.accepted && !c.server_closed).count());
     let left = list_dir(&cache);
